@@ -248,8 +248,10 @@ def classes_of(c):
 
 def _history_cases(tier):
     import itertools
-    alphabet = [["g0", "g0"], ["g1", "g1"], ["bk0", "g0"], ["bk1", "g0"], ["g0", "bm0"]]
-    for depth in range(1, 5 if tier == "quick" else 6):
+    # every (key, message) combination of {valid key 0, valid key 1, key too long, key too short} x {valid message 0, valid message 1,
+    # message too long}: 12 letters
+    alphabet = [[k, m] for k in ("g0", "g1", "bk0", "bk1") for m in ("g0", "g1", "bm0")]
+    for depth in range(1, 4 if tier == "quick" else 5):
         for word in itertools.product(alphabet, repeat=depth):
             yield {"kind": "prf_history", "alias": "HmacPRF", "digest": "sha256" if depth % 2 else "sha1", "n": 33, "klen": 16, "mlen": 4,
                    "calls": [list(x) for x in word] + [["g0", "g0"], ["g1", "g1"]]}
@@ -288,8 +290,8 @@ def run_shard(spec, seed, tier):
         res.extra["lengths_bounds"] = "every output length 1..200 per digest for %d inputs incl. keys of block size -1/0/+1" % (7 if tier == "quick" else 19)
     elif spec["kind"] == "histories":
         simple.run_enumeration(res, mod, _history_cases(tier))
-        res.extra["history_bounds"] = ("every sequence of up to %d calls on one PRF object over {valid k0, valid k1, key too long, key too short, "
-                                       "message too long}, followed by two valid calls" % (4 if tier == "quick" else 5))
+        res.extra["history_bounds"] = ("every sequence of up to %d calls on one PRF object over {valid k0, valid k1, key too long, key too short} x "
+                                       "{valid m0, valid m1, message too long}, followed by two valid calls" % (3 if tier == "quick" else 4))
         res.exhaustive = True
     elif spec["kind"] == "fuzz":
         simple.fuzz_stage(res, "props.c16", seed, 30000)
